@@ -11,6 +11,7 @@ import reader_checks
 import config_checks
 import render_checks
 import feed_checks
+import ui_checks
 
 
 def decode_check(prop, tier, seed, rep):
@@ -29,6 +30,7 @@ CHECKS["C19"] = reader_checks.run
 CHECKS["C20"] = config_checks.run
 CHECKS["C11"] = render_checks.run
 CHECKS["C16"] = feed_checks.run
+CHECKS["C17"] = ui_checks.run
 
 
 def setup():
